@@ -173,3 +173,41 @@ Theorem bounded_cyclic_queue_deadlock_refuted :
     final s = false /\ sp_quiet (st_pool s) = false /\ st_cancel s = false /\ edge_len s 0 0 = cap.
 Proof. exists 2, bq_state. split; [reflexivity|exact bounded_queue_deadlock_l]. Qed.
 Print Assumptions bounded_cyclic_queue_deadlock_refuted.
+
+(* ---- draining after cancellation --------------------------------------------------------------- *)
+From OFGA Require Import Conc.CycleGroupDrain Conc.CycleGroupDrainProofs.
+
+(* In the model a goroutine whose context is cancelled still consumes its sender until it is
+   closed (Core.ProcessSender: `defer DrainSender(context.Background(), ...)`), so there is no
+   wedge: from EVERY reachable state, cancelled or not, the goroutines alone reach a state where
+   everything has returned, the in-flight count is zero, no cyclical message is queued and the
+   latch is closed *)
+Theorem drain_reaches_zero :
+  forall n np std, 1 <= n -> 1 <= np -> forall s, reach (init n np std) s ->
+  exists sched s', steps s sched s' /\ ~ In TC sched /\ final s' = true /\
+                   sp_inflight (st_pool s') = 0%Z /\ st_flight s' = [] /\ sp_quiet (st_pool s') = true.
+Proof. exact drain_reaches_zero_l. Qed.
+Print Assumptions drain_reaches_zero.
+(* a run that is cancelled while messages are queued: they are drained (counted as lost), the
+   count reaches zero and everything returns *)
+Definition ex_cancelled : state :=
+  run_rr 300 (run (init 3 2 wl) ([TP 18; TP 18; TP 18; TP 19; TP 19; TP 19; TC])).
+Example drain_reaches_zero_ex :
+  st_cancel ex_cancelled = true /\ final ex_cancelled = true /\ sp_inflight (st_pool ex_cancelled) = 0%Z /\
+  st_flight ex_cancelled = [] /\ st_lost ex_cancelled = 7.
+Proof. vm_compute. repeat split; auto. Qed.
+
+(* ... and the draining is necessary: if a cancelled goroutine returns without consuming its sender
+   (DrainSender with the cancelled context), the queued messages stay counted for ever: a state is
+   reached in which no goroutine can step, two messages are queued, inflight = 2, the latch is
+   open *)
+Theorem drain_needed_refuted :
+  exists s,
+    s = run_nodrain (init 2 1 [(0, [Msg 1 []; Msg 1 []])])
+          ([TP 4; TP 4; TP 4; TP 4; TP 4; TP 4; TC] ++
+           flat_map (fun _ => [TP 0; TP 1; TP 2; TP 3; TM 0; TM 1]) (seq 0 30)) /\
+    (forall t, t <> TC -> step_nodrain s t = None) /\
+    final s = false /\ sp_quiet (st_pool s) = false /\ st_cancel s = true /\
+    length (st_flight s) = 2 /\ sp_inflight (st_pool s) = 2%Z.
+Proof. exists nd_state. split; [reflexivity|exact nodrain_wedge_l]. Qed.
+Print Assumptions drain_needed_refuted.
